@@ -309,6 +309,97 @@ def rand_cli(rng):
     return argv, inp, c
 
 
+def _fix_M(argv, c):
+    """rand_cli's -M rewrite leaves a second -f: keep the first"""
+    if not c.get("M"):
+        return argv
+    rest, skip = [], False
+    for i, a in enumerate(argv):
+        if skip:
+            skip = False
+            continue
+        if a == "-f" and i > 0:
+            skip = True
+            continue
+        rest.append(a)
+    return rest
+
+
+BIG_SIZES = [1023, 1024, 1025, 4095, 4096, 4097, 8191, 8192, 8193, 65535, 65536, 65537, 70000, 131072, 131073]
+
+
+def inflate(rng, inp, eol, d):
+    """a LARGE input with the structure of the small one: many copies of its records, one field blown up past a buffer size, or the
+    small input pushed so that it straddles offset 65536 (main's BufReader refill / BufWriter bypass)"""
+    how = rng.choice(["many", "long", "long", "align", "align", "tail"])
+    recs = inp.split(eol)
+    if how == "many":
+        k = rng.choice([3000, 20000, 70000]) // max(1, len(inp)) + 2
+        return eol.join(recs[:-1] * k + recs[-1:]) if len(recs) > 1 else inp * k
+    if how == "long":
+        n = rng.choice(BIG_SIZES)
+        filler = rng.choice([b"x", b"xy", "é".encode(), b"x\r"])
+        long = (filler * (n // len(filler) + 1))[:n]
+        if b"x" in inp and rng.random() < 0.7:
+            k = rng.randrange(inp.count(b"x"))
+            parts = inp.split(b"x")
+            return b"x".join(parts[:k + 1]) + long + b"x".join(parts[k + 1:])
+        return long + (d or b"") + inp
+    if how == "align":
+        off = rng.choice([65536, 131072]) - rng.randint(0, 6)
+        pad = rng.choice([b"x", b"y"]) * off
+        if rng.random() < 0.5:
+            pad = pad[:-len(eol)] + eol            # the small input starts a record of its own near the boundary
+        elif d and rng.random() < 0.5:
+            pad = pad[:-len(d)] + d                # … or is the tail of a long record, right after a delimiter
+        return pad + inp
+    # "tail": a large body, then a long unterminated last record (stays in stdout's LineWriter until the final flush)
+    body = eol.join(recs[:-1] * (70000 // max(1, len(inp)) + 2)) + eol if len(recs) > 1 else b""
+    return body + inp.rstrip(eol) + (d or b"") + b"y" * rng.choice([1, 1023, 1024, 1025, 3000])
+
+
+def big_io(chk, n, want=None):
+    """the real binary (main's 64 KiB BufReader/BufWriter, stdout's LineWriter) against the library run in-process with reads of a few
+    bytes and short writes, on LARGE inputs: whatever depends on a buffer size, a refill, a bypassed buffer or an input length shows as
+    a difference.  Neither side is the model (its list-based definitions are quadratic in the input length)."""
+    from common import build_tuc, run_cli
+    tuc = build_tuc(release=True)
+    rng = chk.rng
+    trip = []
+    while len(trip) < n:
+        argv, inp, c = rand_cli(rng)
+        argv = _fix_M(argv, c)
+        if not argv or (want and not want(argv)):
+            continue
+        eol = b"\0" if c.get("z") else b"\n"
+        big = inflate(rng, inp, eol, c.get("d") if c.get("bt", "f") == "f" else None)
+        c = dict(c)
+        c["in"] = big
+        c["seg"] = [rng.choice([1, 2, 3, 7, 64, 997, 4096]) for _ in range(rng.randint(1, 12))]
+        c["cyc"] = True
+        c["sw"] = rng.choice([1, 2, 3, 1000])
+        trip.append((argv, big, c))
+    res = run_cli(tuc, [(a, i) for a, i, _ in trip])
+    lines = [case_line(c) for _, _, c in trip]
+    impl = run_impl(lines)
+    for (argv, big, c), (st, out), l, i in zip(trip, res, lines, impl):
+        chk.evaluations += 1
+        chk.count("big-io:" + c.get("bt", "f") + (":M" if c.get("M") else ""))
+        chk.nontrivial_add(("big", tuple(argv), len(big), hash(big)))
+        ist, iout = parse_result(i)
+        if ist not in ("ok", "fail"):
+            chk.count("big-io:library-" + ist.split(" ")[0])
+            if ist in ("panic", "hang", "killed"):
+                chk.report_oracle("big input: the library panics / hangs in-process", {"argv": argv, "stdin_len": len(big), "case": l[:2000], "implementation": i[:200]})
+            continue
+        if st not in ("0", "1") or (st == "0") != (ist == "ok") or out != iout:
+            k = next((j for j in range(min(len(out), len(iout))) if out[j] != iout[j]), min(len(out), len(iout)))
+            chk.report_oracle("large input: the real binary (64 KiB buffers) and the library fed in small pieces print different things",
+                              {"argv": argv, "stdin_hex": big.hex(), "binary": [st, len(out)], "library_in_process": [ist, len(iout)],
+                               "first_difference_at_output_byte": k, "binary_there": out[max(0, k - 20):k + 20].hex(),
+                               "library_there": iout[max(0, k - 20):k + 20].hex(), "case": l if len(l) < 4000 else l[:4000] + "…"})
+
+
 def cli_roundtrip(chk, tuc_binary, n, want=None):
     """binary vs model on n random accepted command lines; `want(argv)` filters"""
     from common import run_cli
